@@ -92,11 +92,38 @@ func (cl c12Class) token(c int) string {
 	return fmt.Sprintf("D:%d:%s:%s", c, c12Ints(cl.supers, ","), st)
 }
 
+type c12OldDef struct {
+	cls int
+	def c12Class
+}
+
 type c12Config struct {
 	n     int
 	defs  []c12Class
 	redef *c12Class // new definition of class redefOf (nil: none)
 	rcls  int
+	after []string    // J tokens: :after methods on initialize-instance / shared-initialize (same for every order)
+	old   []c12OldDef // history programs: the superseded definitions (their accessors stay defined)
+}
+
+// c12GenAfter: :after methods on initialize-instance / shared-initialize for random classes (half of
+// the configurations have none of a kind); they are defined before the classes exist
+func c12GenAfter(r *lib.Rng, n int) []string {
+	var toks []string
+	for _, f := range []string{"i", "s"} {
+		if r.Bool() {
+			var ks []int
+			for k := 0; k < n; k++ {
+				if r.Chance(60) {
+					ks = append(ks, k)
+				}
+			}
+			if len(ks) > 0 {
+				toks = append(toks, "J:"+f+":"+c12Ints(ks, ","))
+			}
+		}
+	}
+	return toks
 }
 
 // finalDefs: the definitions in force at the end
@@ -294,6 +321,7 @@ func c12GenConfig(r *lib.Rng, n int, o c12GenOpts) *c12Config {
 		cf.redef = &nd
 	}
 	c12GenDefaults(r, cf)
+	cf.after = c12GenAfter(r, n)
 	return cf
 }
 
@@ -405,6 +433,13 @@ func c12StepObs(n int, pick int) []string {
 		toks = append(toks, fmt.Sprintf("P:%d", k))
 	}
 	toks = append(toks, fmt.Sprintf("M:%d:-", pick), "H:0")
+	// which initforms a make-instance evaluates and which :after methods of the initialisation
+	// protocol run, for another class
+	if pick%2 == 0 {
+		toks = append(toks, fmt.Sprintf("E:%d:-", (pick+1)%n))
+	} else {
+		toks = append(toks, fmt.Sprintf("N:%d:-", (pick+1)%n))
+	}
 	return toks
 }
 
@@ -457,6 +492,13 @@ func c12FinalBlock(r *lib.Rng, cf *c12Config) []string {
 		for _, sl := range cf.defs[cf.rcls].slots {
 			for _, f := range sl.flags {
 				stale = append(stale, acc{cf.rcls, sl.name, string(f)})
+			}
+		}
+	}
+	for _, od := range cf.old {
+		for _, sl := range od.def.slots {
+			for _, f := range sl.flags {
+				stale = append(stale, acc{od.cls, sl.name, string(f)})
 			}
 		}
 	}
@@ -590,10 +632,25 @@ func c12FinalBlock(r *lib.Rng, cf *c12Config) []string {
 				toks = append(toks, fmt.Sprintf("W:%d:%d:s:0", sl[0], 5999))
 			}
 		}
+		// evaluated initforms / :after methods of the initialisation protocol, for two subsets of the
+		// initargs that are not ambiguous
+		for j := 0; j < 2; j++ {
+			sub := subsets[unamb[r.Intn(len(unamb))]]
+			if j == 0 {
+				sub = subsets[unamb[0]] // no initarg: every initform in force is evaluated
+			}
+			toks = append(toks, "E"+c12ArgToken(c, sub)[1:])
+			if j == 1 {
+				toks = append(toks, "N"+c12ArgToken(c, sub)[1:], "C")
+			}
+		}
 		// an initarg no slot of the class declares
 		for k := 0; k < 4; k++ {
 			if !valid[k] {
 				toks = append(toks, c12ArgToken(c, append([]int{k}, vs...)))
+				if c == 0 {
+					toks = append(toks, "E"+c12ArgToken(c, append([]int{k}, vs...))[1:])
+				}
 				break
 			}
 		}
@@ -625,6 +682,7 @@ func c12Build(r *lib.Rng, cf *c12Config, order []int, rpos int, final []string, 
 		all[k] = k
 	}
 	p.toks = append(p.toks, "G:0:"+c12Ints(all, ","))
+	p.toks = append(p.toks, cf.after...)
 	// instances that are kept and observed again after later forms (in particular across the
 	// redefinition): slip documents that an existing instance keeps its class object
 	nkept := 0
@@ -718,6 +776,140 @@ func c12Build(r *lib.Rng, cf *c12Config, order []int, rpos int, final []string, 
 	return p
 }
 
+// ---------------------------------------------------------------------------------------------
+// histories: several definitions per class, forward references to classes defined much later or
+// never, redefinitions of super- and grand-superclasses while a class waits for a missing one
+
+type c12Hist struct {
+	n        int
+	versions [][]c12Class // versions[c]: the successive definitions of class c
+	phantom  bool         // some definition names class n, which is never defined
+	after    []string
+}
+
+func c12GenHist(r *lib.Rng, o c12GenOpts) *c12Hist {
+	h := &c12Hist{n: 4 + r.Intn(4)}
+	used := map[int]bool{}
+	phantomFinal := r.Chance(6)
+	for c := 0; c < h.n; c++ {
+		nv := 1 + []int{0, 0, 1, 1, 2}[r.Intn(5)]
+		var vs []c12Class
+		for v := 0; v < nv; v++ {
+			// superclasses have smaller numbers: whatever subset of the forms is in force, the graph is acyclic
+			d := c12Class{supers: c12GenSupers(r, c), slots: c12GenSlots(r, c, v, o, used)}
+			last := v == nv-1
+			if (!last && r.Chance(14)) || (last && phantomFinal && r.Chance(30)) {
+				at := r.Intn(len(d.supers) + 1)
+				d.supers = append(d.supers[:at:at], append([]int{h.n}, d.supers[at:]...)...)
+				h.phantom = true
+			}
+			vs = append(vs, d)
+		}
+		h.versions = append(h.versions, vs)
+	}
+	// default initargs: only on the last class (nothing can inherit from it), one key
+	if r.Chance(30) {
+		vs := h.versions[h.n-1]
+		for v := range vs {
+			if r.Chance(70) {
+				k := r.Intn(3)
+				vs[v].defaults = [][2]int{{k, 700 + 100*v + 10*(h.n-1) + k}}
+			}
+		}
+	}
+	h.after = c12GenAfter(r, h.n)
+	return h
+}
+
+func (h *c12Hist) finalConfig() *c12Config {
+	cf := &c12Config{n: h.n, after: h.after}
+	for c, vs := range h.versions {
+		cf.defs = append(cf.defs, vs[len(vs)-1])
+		for _, d := range vs[:len(vs)-1] {
+			cf.old = append(cf.old, c12OldDef{c, d})
+		}
+	}
+	return cf
+}
+
+// an order of the forms: every class as often as it has versions, shuffled; the k-th occurrence of a
+// class is its k-th version, so every order leaves the same definitions in force
+func (h *c12Hist) order(r *lib.Rng) []int {
+	var seq []int
+	for c, vs := range h.versions {
+		for range vs {
+			seq = append(seq, c)
+		}
+	}
+	for i := len(seq) - 1; i > 0; i-- {
+		j := r.Intn(i + 1)
+		seq[i], seq[j] = seq[j], seq[i]
+	}
+	return seq
+}
+
+func c12BuildHist(r *lib.Rng, h *c12Hist, seq []int, final []string, reps int) *c12Prog {
+	p := &c12Prog{redefAt: -1, reps: reps, affected: map[int]bool{}}
+	all := make([]int, h.n)
+	for k := range all {
+		all[k] = k
+		p.affected[k] = true
+	}
+	p.toks = append(p.toks, "G:0:"+c12Ints(all, ","))
+	p.toks = append(p.toks, h.after...)
+	nkept := 0
+	keep := func(c int) {
+		if nkept < 4 {
+			p.toks = append(p.toks, fmt.Sprintf("M:%d:-", c), fmt.Sprintf("K:%d", nkept), "C", "H:0")
+			nkept++
+		}
+	}
+	seen := make([]int, h.n)
+	redefs, fwd := 0, 0
+	defined := map[int]bool{}
+	for _, c := range seq {
+		d := h.versions[c][seen[c]]
+		if seen[c] > 0 {
+			// a redefinition: an instance of the class (and sometimes of another one) is kept across it
+			keep(c)
+			if r.Bool() {
+				keep(r.Intn(h.n))
+			}
+			if p.redefAt < 0 {
+				p.redefAt = len(p.toks)
+			}
+			redefs++
+		}
+		for _, s := range d.supers {
+			if !defined[s] {
+				fwd = 1
+			}
+		}
+		seen[c]++
+		defined[c] = true
+		p.toks = append(p.toks, d.token(c))
+		p.toks = append(p.toks, c12StepObs(h.n, r.Intn(h.n))...)
+		for j := 0; j < nkept; j++ {
+			p.toks = append(p.toks, fmt.Sprintf("X:%d", j), "C", fmt.Sprintf("t:%d", r.Intn(h.n)), "H:0")
+		}
+	}
+	for j := 0; j < nkept; j++ {
+		p.toks = append(p.toks, fmt.Sprintf("X:%d", j), "C")
+		for k := 0; k <= h.n; k++ {
+			p.toks = append(p.toks, fmt.Sprintf("t:%d", k))
+		}
+		p.toks = append(p.toks, "a:"+c12Ints(all, ","), "H:0", fmt.Sprintf("W:%d:%d:s:0", r.Intn(4), 7000+j), fmt.Sprintf("X:%d", j))
+	}
+	p.final = len(p.toks)
+	p.toks = append(p.toks, final...)
+	ph := 0
+	if h.phantom {
+		ph = 1
+	}
+	p.shape = fmt.Sprintf("hist n=%d forms=%d redefs=%d fwd=%d never-defined-super=%d", h.n, len(seq), redefs, fwd, ph)
+	return p
+}
+
 // the redefinition goes somewhere after the original form of the class (so that it is the
 // definition in force at the end for every permutation of the family)
 func c12RedefPos(r *lib.Rng, cf *c12Config, order []int) int {
@@ -793,6 +985,8 @@ var c12Cells = []c12Cell{
 		"D:0:-:0/0/1/- D:1:0:0/1/-/- M:1:0=1000 M:1:1=1010 M:1:- M:1:0=1000,1=1011"},
 	{"initform/nil", 1,
 		"D:0:-:0/0/-1/-;1/-/2/- M:0:- M:0:0=1000 T:0:0"},
+	{"initform/nil-shadowed-without-initform", 1,
+		"D:0:-:0/-/-1/-;1/1/-1/- D:1:0:0/0/-/-;1/-/-/- D:2:1:- P:2 M:1:- M:2:- M:1:0=1000 M:2:1=1010 M:0:- E:2:-"},
 	{"default-initargs/basic", 1,
 		"D:0:-:0/0/1/-;1/1/2/-;2/2/-/-;3/-/4/-:1=77,2=88 P:0 M:0:- M:0:1=1010 M:0:0=1000,2=1020 M:0:0=1000,1=1011,2=1022"},
 	{"default-initargs/shared-key-and-second-name", 1,
@@ -837,6 +1031,28 @@ var c12Cells = []c12Cell{
 		"D:3:-:- D:0:-:- G:0:0,3 M:0:- K:0 H:0 D:0:3:- M:0:- H:0 X:0 H:0 M:0:- H:0 X:0 H:0"},
 	{"dispatch/cache-subclass-redefined-super-dropped", 12,
 		"D:0:-:- D:1:0:- D:2:1:- G:0:0,1,2 M:2:- H:0 D:1:-:- M:2:- H:0 t:0"},
+	{"initform-evaluation/shadowed-and-filled", 1,
+		"D:0:-:0/0/2/-;1/-/5/-;2/2/8/- D:1:0:0/1/-/-;1/-/14/- E:1:- E:1:0=1000 E:1:1=1010 E:1:2=1020 E:0:- E:0:0=1000,2=1021 E:1:3=1030"},
+	{"initform-evaluation/per-instance", 1,
+		"D:0:-:0/-/12/-;1/1/-/- E:0:- E:0:- M:0:- E:0:- E:0:1=1010"},
+	{"initform-evaluation/default-initarg-fills", 1,
+		"D:0:-:0/0/5/-;1/1/8/-:0=77 E:0:- E:0:1=1010 E:0:0=1000"},
+	{"initform-evaluation/diamond-and-redefinition", 12,
+		"D:0:-:0/0/2/-;1/-/5/- D:1:0:- D:2:0:0/-/23/- D:3:1,2:- E:3:- D:4:2,1:1/-/47/- E:4:- D:2:0:1/-/126/- E:3:- E:4:- E:3:0=1000"},
+	{"after-methods/order", 1,
+		"J:i:0,1,2,3 J:s:0,2 D:0:-:0/0/1/- D:1:0:- D:2:0:- D:3:1,2:- N:3:- N:3:0=1000 N:1:- N:0:- N:3:1=1010"},
+	{"after-methods/forward-reference", 1,
+		"J:i:0,1 J:s:1 D:1:0:1/-/12/- N:1:- D:0:-:0/-/1/- N:1:- N:0:-"},
+	{"after-methods/redefinition", 12,
+		"J:i:0,1,3 J:s:3 D:3:-:- D:0:-:- D:1:0:- N:1:- D:0:3:- N:1:- N:0:- D:0:-:- N:1:-"},
+	{"history/two-missing-supers-redefine-during-wait", 12,
+		"D:0:-:0/-/2/- D:1:0:1/-/14/- D:4:1,2,3:- P:4 D:0:-:0/-/104/-;4/-/107/- P:4 D:2:0:2/-/23/- P:4 M:4:- D:1:-:1/-/113/- P:4 P:1 D:3:-:3/-/35/- P:4 M:4:- E:4:- T:4:0 T:4:3 A:4:0,1,2,3"},
+	{"history/missing-super-dropped-by-redefinition", 12,
+		"D:0:-:- D:2:0,5:2/-/23/- P:2 D:3:2:- P:3 M:3:- D:2:0:2/-/123/- P:2 P:3 M:3:- D:5:-:5/-/56/- P:2 P:3 M:3:- T:3:5"},
+	{"history/grand-super-redefined-twice", 12,
+		"D:0:-:0/-/2/- D:1:0:- D:2:1:- D:3:2:- M:3:- K:0 D:0:-:0/-/104/- M:3:- D:1:-:- P:3 M:3:- D:0:-:0/-/203/-;1/-/206/- P:3 M:3:- D:1:0:- P:3 M:3:- X:0 C t:0"},
+	{"history/wait-for-two-redefine-both-supers-of-the-waiting-class", 12,
+		"D:1:-:1/-/14/- D:2:-:2/-/23/- D:5:1,6,2,7:- P:5 D:1:-:1/-/113/- D:2:1:2/-/125/- P:5 D:6:-:- P:5 D:2:-:2/-/224/-;1/-/221/- P:5 D:7:2:- P:5 P:7 M:5:- E:5:- T:5:1 A:5:1,2,6,7"},
 	{"redefine/leaf", 4,
 		"D:0:-:0/-/1/- D:1:0:1/1/12/- M:1:- D:1:0:1/1/112/-;2/-/113/- P:1 M:1:- M:1:1=1010 M:0:-"},
 }
@@ -887,6 +1103,7 @@ type c12Exec struct {
 	regClass  map[int]slip.Object // their class objects when they were kept
 	gcount    int
 	trDefined bool
+	evDefined bool // the log of evaluated initforms / the traces of :after methods are defined
 	obsForm   string
 	trace     []string // transcript (replay mode)
 	keepText  bool
@@ -937,6 +1154,36 @@ func c12FormText(v int) string {
 	return strconv.Itoa(v)
 }
 
+// c12Logged: the initform with value v is rendered as a form that records its own evaluation
+func c12Logged(v int) bool { return v != -1 && ((v >= 10 && v%3 == 0) || v%3 == 2) }
+
+func (e *c12Exec) evVar() string { return "*c12ev" + e.sfx + "*" }
+func (e *c12Exec) aiVar() string { return "*c12ai" + e.sfx + "*" }
+func (e *c12Exec) asVar() string { return "*c12as" + e.sfx + "*" }
+func (e *c12Exec) defVars() {
+	if !e.evDefined {
+		e.evDefined = true
+		e.eval(fmt.Sprintf("(defvar %s nil)", e.evVar()))
+		e.eval(fmt.Sprintf("(defvar %s nil)", e.aiVar()))
+		e.eval(fmt.Sprintf("(defvar %s nil)", e.asVar()))
+	}
+}
+
+// slotForm: the text of the initform of slot x written in class c with value v. The non-literal
+// shapes push a tag naming the form (class, slot, value) on the run's log each time they are
+// evaluated, so that WHICH forms make-instance evaluates is observable (token E).
+func (e *c12Exec) slotForm(c int, x string, v int) string {
+	if !c12Logged(v) {
+		return c12FormText(v)
+	}
+	return fmt.Sprintf("(progn (setq %s (cons 't%d-%s-%d %s)) %s)", e.evVar(), c, x, v, e.evVar(), c12FormText(v))
+}
+
+// obsFormFor: the slot observation form on variable v
+func (e *c12Exec) obsFormFor(v string) string {
+	return strings.ReplaceAll(e.obsForm, " cur ", " "+v+" ")
+}
+
 func c12ValueWord(v slip.Object) string {
 	switch tv := v.(type) {
 	case nil:
@@ -956,7 +1203,16 @@ func (e *c12Exec) observe() string {
 	if !o.Ok {
 		return "!error:" + o.Class
 	}
-	list, _ := o.Value.(slip.List)
+	word := c12ObsWord(o.Value)
+	if e.keepText {
+		e.trace = append(e.trace, "  ; slots of that instance (slot-exists-p / slot-boundp / slot-value on s0..s5, sN=u: unbound): "+word)
+	}
+	return word
+}
+
+// c12ObsWord renders the value of the observation form
+func c12ObsWord(v slip.Object) string {
+	list, _ := v.(slip.List)
 	var parts []string
 	for x, item := range list {
 		switch ti := item.(type) {
@@ -978,10 +1234,53 @@ func (e *c12Exec) observe() string {
 	if len(parts) > 0 {
 		word = strings.Join(parts, ",")
 	}
-	if e.keepText {
-		e.trace = append(e.trace, "  ; slots of that instance (slot-exists-p / slot-boundp / slot-value on s0..s5, sN=u: unbound): "+word)
-	}
 	return word
+}
+
+// c12SortTriples: "k/x/v" items sorted by class then slot, joined by "."; "-" when empty
+func c12SortTriples(items []string) string {
+	if len(items) == 0 {
+		return "-"
+	}
+	key := func(s string) (int, int) {
+		p := strings.Split(s, "/")
+		a, _ := strconv.Atoi(p[0])
+		b := 0
+		if len(p) > 1 {
+			b, _ = strconv.Atoi(p[1])
+		}
+		return a, b
+	}
+	sort.SliceStable(items, func(i, j int) bool {
+		a1, b1 := key(items[i])
+		a2, b2 := key(items[j])
+		if a1 != a2 {
+			return a1 < a2
+		}
+		if b1 != b2 {
+			return b1 < b2
+		}
+		return items[i] < items[j]
+	})
+	return strings.Join(items, ".")
+}
+
+// c12LoggedOnly: the model reports every evaluated initform; the implementation can only report
+// those rendered as logging forms
+func c12LoggedOnly(model string) string {
+	if model == "-" || strings.HasPrefix(model, "!") {
+		return model
+	}
+	var keep []string
+	for _, it := range strings.Split(model, ".") {
+		p := strings.Split(it, "/")
+		if len(p) == 3 {
+			if v, err := strconv.Atoi(p[2]); err == nil && c12Logged(v) {
+				keep = append(keep, it)
+			}
+		}
+	}
+	return c12SortTriples(keep)
 }
 
 func c12ErrWord(o lib.Outcome) string {
@@ -1102,6 +1401,7 @@ func (e *c12Exec) step(tok string) string {
 			return "!token"
 		}
 		c := num(1)
+		e.defVars()
 		var b strings.Builder
 		fmt.Fprintf(&b, "(defclass %s (", e.cname(c))
 		for i, s := range list(f[2], ",") {
@@ -1126,7 +1426,7 @@ func (e *c12Exec) step(tok string) string {
 			}
 			if sf[2] != "-" {
 				v, _ := strconv.Atoi(sf[2])
-				fmt.Fprintf(&b, " :initform %s", c12FormText(v))
+				fmt.Fprintf(&b, " :initform %s", e.slotForm(c, sf[0], v))
 			}
 			for _, fl := range sf[3] {
 				switch fl {
@@ -1179,6 +1479,105 @@ func (e *c12Exec) step(tok string) string {
 			return "!classof:" + co.String()
 		}
 		return e.observe()
+	case "E":
+		// make-instance reporting which (logging) initforms it evaluated
+		e.defVars()
+		var b strings.Builder
+		fmt.Fprintf(&b, "(progn (setq %s nil) (make-instance '%s", e.evVar(), e.cname(num(1)))
+		for _, kv := range list(f[2], ",") {
+			k, v, _ := strings.Cut(kv, "=")
+			fmt.Fprintf(&b, " :k%s %s", k, v)
+		}
+		fmt.Fprintf(&b, ") %s)", e.evVar())
+		o := e.eval(b.String())
+		if !o.Ok {
+			return "!error"
+		}
+		l, _ := o.Value.(slip.List)
+		var tags []string
+		for _, x := range l {
+			t := strings.ToLower(slip.ObjectString(x))
+			p := strings.Split(strings.TrimPrefix(t, "t"), "-")
+			if len(p) != 3 || !strings.HasPrefix(t, "t") {
+				return "!tag:" + t
+			}
+			tags = append(tags, strings.Join(p, "/"))
+		}
+		return c12SortTriples(tags)
+	case "J":
+		e.defVars()
+		for _, ks := range list(f[2], ",") {
+			k, _ := strconv.Atoi(ks)
+			cn := e.cname(k)
+			var src string
+			if f[1] == "i" {
+				src = fmt.Sprintf("(defmethod initialize-instance :after ((o %s) &rest args) (setq %s (cons (list '%s %s) %s)))",
+					cn, e.aiVar(), cn, e.obsFormFor("o"), e.aiVar())
+			} else {
+				src = fmt.Sprintf("(defmethod shared-initialize :after ((o %s) names &rest args) (setq %s (cons '%s %s)))",
+					cn, e.asVar(), cn, e.asVar())
+			}
+			if o := e.eval(src); !o.Ok {
+				return "!error:" + o.Class
+			}
+		}
+		return "j"
+	case "N":
+		// make-instance reporting the :after methods of initialize-instance / shared-initialize that ran
+		e.defVars()
+		c := num(1)
+		var b strings.Builder
+		fmt.Fprintf(&b, "(progn (setq %s nil) (setq %s nil) (make-instance '%s", e.aiVar(), e.asVar(), e.cname(c))
+		for _, kv := range list(f[2], ",") {
+			k, v, _ := strings.Cut(kv, "=")
+			fmt.Fprintf(&b, " :k%s %s", k, v)
+		}
+		b.WriteString("))")
+		e.cur = nil
+		e.curReg = -1
+		o := e.eval(b.String())
+		if !o.Ok {
+			return "!error"
+		}
+		e.cur = o.Value
+		final := e.observe()
+		ai := e.eval(fmt.Sprintf("(reverse %s)", e.aiVar()))
+		as := e.eval(fmt.Sprintf("(reverse %s)", e.asVar()))
+		if !ai.Ok || !as.Ok {
+			return "!error:trace"
+		}
+		var iw, sw []string
+		ail, _ := ai.Value.(slip.List)
+		for _, x := range ail {
+			pair, _ := x.(slip.List)
+			if len(pair) != 2 {
+				return "!shape"
+			}
+			k, ok := e.classNum(slip.ObjectString(pair[0]))
+			if !ok {
+				return "!class:" + slip.ObjectString(pair[0])
+			}
+			// an :after method of initialize-instance sees the initialised slots
+			if saw := c12ObsWord(pair[1]); saw != final {
+				return fmt.Sprintf("!after-method-of-%d-saw:%s", k, saw)
+			}
+			iw = append(iw, strconv.Itoa(k))
+		}
+		asl, _ := as.Value.(slip.List)
+		for _, x := range asl {
+			k, ok := e.classNum(slip.ObjectString(x))
+			if !ok {
+				return "!class:" + slip.ObjectString(x)
+			}
+			sw = append(sw, strconv.Itoa(k))
+		}
+		word := func(ws []string) string {
+			if len(ws) == 0 {
+				return "-"
+			}
+			return strings.Join(ws, ".")
+		}
+		return word(iw) + "/" + word(sw)
 	case "W":
 		if e.cur == nil {
 			return "!noinst"
@@ -1432,19 +1831,22 @@ func c12RunWorker(c *lib.Ctx, part []*c12Prog, idle time.Duration) (lines []stri
 // again ALONE in a fresh process under the same watch. Only a program that stalls then too is
 // recorded as hung (every word "!hang"); otherwise its results are used. The rest of the chunk is
 // queued again.
-// c12Idle: no finished run for this long = stalled (a run normally takes 5-50 ms).
+// c12Idle: no finished run for this long = stalled (a run normally takes 5-50 ms; at load average 400
+// on 16 cores a history program was seen to take several seconds).
 // VERIF_C12_IDLE_S overrides it (only meant for exercising the hang path quickly).
 var c12Idle = func() time.Duration {
 	if v, err := strconv.Atoi(os.Getenv("VERIF_C12_IDLE_S")); err == nil && v > 0 {
 		return time.Duration(v) * time.Second
 	}
-	return 3 * time.Minute
+	return 5 * time.Minute
 }()
 
 func c12RunAll(c *lib.Ctx, progs []*c12Prog) map[string][][]string {
-	nw := runtime.NumCPU() / 2
-	if nw > 8 {
-		nw = 8
+	// worker processes: the machine's scheduler shares the cores per thread, so on a heavily shared
+	// machine the wall time is inversely proportional to this number; verdicts do not depend on it
+	nw := runtime.NumCPU()
+	if nw > 16 {
+		nw = 16
 	}
 	if nw < 1 {
 		nw = 1
@@ -1540,8 +1942,8 @@ func c12RunAll(c *lib.Ctx, progs []*c12Prog) map[string][][]string {
 				}
 				mu.Unlock()
 				if suspect != nil {
-					// confirmation: the program alone, fresh process
-					lines, timedOut, err := c12RunWorker(c, []*c12Prog{suspect}, c12Idle)
+					// confirmation: the program alone, fresh process, twice the patience
+					lines, timedOut, err := c12RunWorker(c, []*c12Prog{suspect}, 2*c12Idle)
 					mu.Lock()
 					if err != nil {
 						fmt.Fprintf(os.Stderr, "C12 worker failed: %v\n", err)
@@ -1590,6 +1992,15 @@ func c12Agree(tok, model, impl string) bool {
 		return true
 	}
 	switch tok[0] {
+	case 'E':
+		if model == "!notready" || model == "!badarg" {
+			return impl == "!error"
+		}
+		return c12LoggedOnly(model) == impl
+	case 'N':
+		if model == "!notready" || model == "!badarg" {
+			return impl == "!error"
+		}
 	case 'M':
 		if model == "!notready" || model == "!badarg" {
 			return impl == "!error"
@@ -1660,6 +2071,14 @@ func c12Aspect(p *c12Prog, i int, model, impl string, curClass int) string {
 		aspect = "typep"
 	case "a", "H":
 		aspect = "applicable"
+	case "E":
+		aspect = "initform-evaluation"
+		cls, _ = strconv.Atoi(f[1])
+	case "N":
+		aspect = "after-methods"
+		cls, _ = strconv.Atoi(f[1])
+	case "J":
+		aspect = "defmethod"
 	case "G":
 		aspect = "defgeneric"
 	case "K", "X":
@@ -1721,7 +2140,7 @@ func c12CurClass(toks []string, i int) int {
 	for j := 0; j <= i && j < len(toks); j++ {
 		f := strings.Split(toks[j], ":")
 		switch f[0] {
-		case "M":
+		case "M", "N":
 			cur, _ = strconv.Atoi(f[1])
 		case "K":
 			regs[f[1]] = cur
@@ -1742,7 +2161,7 @@ func c12CurIsKept(toks []string, i int) bool {
 	kept := false
 	for j := 0; j <= i && j < len(toks); j++ {
 		switch toks[j][0] {
-		case 'M':
+		case 'M', 'N':
 			kept = false
 		case 'X':
 			kept = true
@@ -1765,7 +2184,7 @@ func c12Lisp(p *c12Prog, upto int) []string {
 func c12FilterTrace(trace []string) []string {
 	var out []string
 	for _, l := range trace {
-		if !strings.Contains(l, "(if (slot-exists-p") && !strings.Contains(l, "(class-name (class-of cur))") {
+		if !strings.HasPrefix(l, "(list (if (slot-exists-p") && !strings.Contains(l, "(class-name (class-of cur))") {
 			out = append(out, l)
 		}
 	}
@@ -1788,6 +2207,9 @@ func c12Compare(c *lib.Ctx, p *c12Prog, model []string, runs [][]string) (agree 
 	noInst := make([]bool, len(runs))
 	for i, tok := range p.toks {
 		for rep, words := range runs {
+			if tok[0] == 'N' {
+				noInst[rep] = false
+			}
 			if tok[0] == 'M' {
 				noInst[rep] = strings.HasPrefix(model[i], "?") && words[i] == "!error"
 			} else if noInst[rep] && (tok[0] == 'W' || tok[0] == 'R' || tok[0] == 'U') && words[i] == "!noinst" {
@@ -1895,7 +2317,16 @@ func runC12(c *lib.Ctx) {
 
 	// perm families
 	type fam struct{ n, count int }
-	fams := []fam{{1, c.Scale(4, 12)}, {2, c.Scale(10, 40)}, {3, c.Scale(30, 150)}, {4, c.Scale(24, 120)}, {5, c.Scale(5, 36)}}
+	fams := []fam{{1, c.Scale(4, 8)}, {2, c.Scale(10, 24)}, {3, c.Scale(26, 80)}, {4, c.Scale(20, 60)}, {5, c.Scale(5, 14)}}
+	// VERIF_C12_ONLY_SWEEP=1 (self-test aid): run the seed-independent sweep only. The sweep is part of
+	// every run, so a mutant caught this way is caught by the quick tier for every seed; the run is
+	// marked in the evidence and must never be used for a verdict on the unchanged tree.
+	onlySweep := os.Getenv("VERIF_C12_ONLY_SWEEP") != ""
+	if onlySweep {
+		fmt.Fprintln(os.Stderr, "C12: VERIF_C12_ONLY_SWEEP set: random families skipped (self-test mode)")
+		c.Ev.Coverage["restricted_to_sweep"] = true
+		fams = nil
+	}
 	fi := 0
 	for _, fm := range fams {
 		for k := 0; k < fm.count; k++ {
@@ -1913,9 +2344,23 @@ func runC12(c *lib.Ctx) {
 			fi++
 		}
 	}
+	// history families: 4-7 classes, up to three definitions per class, never-defined superclasses;
+	// a few orders of the same forms (all leaving the same definitions in force)
+	nhist := c.Scale(36, 90)
+	for k := 0; k < nhist && !avoidRedef && !onlySweep; k++ {
+		h := c12GenHist(c.Rng, opts)
+		final := c12FinalBlock(c.Rng, h.finalConfig())
+		for v := 0; v < c.Scale(3, 4); v++ {
+			p := c12BuildHist(c.Rng, h, h.order(c.Rng), final, c.Scale(4, 6))
+			p.key = fmt.Sprintf("h%dv%d", k, v)
+			p.family = fmt.Sprintf("h%d", k)
+			progs = append(progs, p)
+		}
+		fi++
+	}
 	// single random programs, five classes
-	nsingle := c.Scale(350, 3000)
-	for k := 0; k < nsingle; k++ {
+	nsingle := c.Scale(300, 1000)
+	for k := 0; k < nsingle && !onlySweep; k++ {
 		o := opts
 		o.redef = !avoidRedef && c.Rng.Chance(60)
 		cf := c12GenConfig(c.Rng, 3+c.Rng.Intn(3), o)
@@ -1971,6 +2416,8 @@ func runC12(c *lib.Ctx) {
 		kind := "single"
 		if p.sweep {
 			kind = "sweep"
+		} else if strings.HasPrefix(p.family, "h") {
+			kind = "history-family"
 		} else if p.family != "" {
 			kind = "perm-family"
 		}
@@ -1987,6 +2434,12 @@ func runC12(c *lib.Ctx) {
 			c.Ev.Hist("token", t[:1])
 			if t[0] == 'P' && model[j] == "!notready" {
 				c.Ev.Count("observed_not_ready", 1)
+			}
+			if t[0] == 'E' && model[j] != "-" && !strings.HasPrefix(model[j], "!") {
+				c.Ev.Count("initform_evaluations_compared", len(strings.Split(c12LoggedOnly(model[j]), ".")))
+			}
+			if t[0] == 'N' && strings.Contains(model[j], ".") {
+				c.Ev.Count("after_method_traces_with_two_or_more_methods", 1)
 			}
 			if t[0] == 'M' && strings.HasPrefix(model[j], "?") {
 				c.Ev.Count("ambiguous_initargs", 1)
